@@ -742,7 +742,7 @@ class LogFileDateSinceSeeker():
         result = self.try_find_line_with_date(offset, None, False)
         # ... then, forwards.
         if not result or result.date is None:
-            result = self.try_find_line_with_date(offset + 1, offset, True)
+            result = self.try_find_line_with_date(offset + 1, None, True)
 
         if not result or result.date is None:
             raise TooManyLinesWithoutDate(
